@@ -45,6 +45,7 @@ type HarnessSpec struct {
 }
 
 type PropertySpec struct {
+	SelfTests   []string      `json:"selftests"`
 	Harnesses   []HarnessSpec `json:"harnesses"`
 	Assumptions []string      `json:"assumptions"`
 	Bounds      string        `json:"bounds"`
@@ -273,6 +274,20 @@ func cmdRun(args []string) int {
 
 	var results []*jobResult
 	var problems []string
+	// translator validation: concrete self-test harnesses, engine vs native build, digests must agree
+	var selfDetails []string
+	selfOK := int64(0)
+	if !*noNative {
+		for _, st := range ps.SelfTests {
+			ok, detail := selfTest(P, st, map[string]int64{})
+			selfDetails = append(selfDetails, detail)
+			if ok {
+				selfOK++
+			} else {
+				problems = append(problems, "self-test (engine vs native): "+detail)
+			}
+		}
+	}
 	violations := 0
 	knownHits := map[string]int64{}
 	var vioLines []string
@@ -371,7 +386,7 @@ func cmdRun(args []string) int {
 			}
 		}
 	}
-	writeEvidence(*out, *prop, *tier, *seed, results, ps, wall, violations, problems, map[string]interface{}{"load_s": loadSecs, "known_findings_hit": knownHits})
+	writeEvidence(*out, *prop, *tier, *seed, results, ps, wall, violations, problems, map[string]interface{}{"load_s": loadSecs, "known_findings_hit": knownHits, "selftest_traces_identical": selfOK, "selftests": selfDetails})
 	for _, l := range knownLines {
 		fmt.Println(l)
 	}
@@ -429,6 +444,9 @@ func writeEvidence(path, prop, tier string, seed int64, results []*jobResult, ps
 	var samples []interface{}
 	var per []map[string]interface{}
 	traces := int64(0)
+	if v, ok := extra["selftest_traces_identical"].(int64); ok {
+		traces += v
+	}
 	for _, r := range results {
 		j := r.Job
 		states += j.States
